@@ -155,6 +155,7 @@ let sexp_of_resp r =
 type parsed = {
   schema : (nat * tdef) list; graph : (nat * node) list; any : bool; doc : doc;
   roots : (int * int); calls : (nat option * (nat * value) list) list; strat_r : int -> bool;
+  defect : (string * int * int) option;
 }
 
 let find_section name l =
@@ -185,7 +186,10 @@ let parse (input : S.t) : parsed =
       | S.L [S.A "call"; name; S.L (S.A "vars" :: vs)] ->
         (opt_nat name, List.map (function S.L [n; v] -> (nat n, value_of v) | _ -> failwith "exec: var") vs)
       | _ -> failwith "exec: call") (find_section "calls" secs) in
-  { schema; graph; any; doc = { d_ops = ops; d_frags = frags }; roots; calls; strat_r = strat_of_node }
+  let defect = (match List.find_opt (function S.L (S.A "defect" :: _) -> true | _ -> false) secs with
+      | Some (S.L [_; S.A k; id; x]) -> Some (k, S.int id, S.int x)
+      | _ -> None) in
+  { schema; graph; any; doc = { d_ops = ops; d_frags = frags }; roots; calls; strat_r = strat_of_node; defect }
 
 let max_depth = nat_of_int 100
 let fuel = nat_of_int 100000
@@ -202,6 +206,7 @@ let printed_changed (p : parsed) (st : st) : bool =
   List.exists (fun (id, name, args) -> Model.printed_args p.schema st.s_args id name args <> args) fs
 
 let run_model (p : parsed) : S.t =
+  if Model.doc_rejects p.schema p.doc then S.L (List.map (fun _ -> S.L [S.A "rejected"]) p.calls @ [S.L [S.A "printed"; S.A "same"]]) else
   let st = ref { s_args = []; s_calls = [] } in
   let outs = List.map (fun (name, vars) ->
       let rootobj =
@@ -242,7 +247,66 @@ let run_spec (p : parsed) : (S.t * bool) list =
         let nodup = (match r.r_data with Some d -> Model.nodup_keys d | None -> true) in
         (sexp_of_resp r, nodup)) p.calls
 
+(* C10: property-shaped checks on the response to a document with one injected defect.
+   Whether execution reaches the defective selection is decided with the specification: the selection
+   is replaced by an undefined field and the specification reports "not a field" there iff it is reached. *)
+let rec replace_node id = function
+  | SField (i, a, n, args, d, sels) ->
+    if int_of_nat i = id then SField (i, a, nat_of_int 99, [], d, []) else SField (i, a, n, args, d, List.map (replace_node id) sels)
+  | SInline (i, c, d, sels) -> SInline (i, c, d, List.map (replace_node id) sels)
+  | s -> s
+
+let reached (p : parsed) (id : int) (name, vars) : bool =
+  let doc = { d_ops = List.map (fun o -> { o with op_sels = List.map (replace_node id) o.op_sels }) p.doc.d_ops;
+              d_frags = List.map (fun (n, fr) -> (n, { fr with fr_sels = List.map (replace_node id) fr.fr_sels })) p.doc.d_frags } in
+  let rootobj =
+    match Model.choose_op doc name with
+    | Some o ->
+      let n = (match o.op_kind with OpQuery -> fst p.roots | _ -> snd p.roots) in
+      if n < 0 then GNil else if p.strat_r n then GNodeR (nat_of_int n) else GNodeA (nat_of_int n)
+    | None -> GNil in
+  match Model.sem_op p.schema p.graph p.any max_depth fuel doc name vars rootobj with
+  | Done r -> List.exists (fun e -> e.e_kind = ENotField && e.e_loc = LNode (nat_of_int id)) r.r_errs
+  | OutOfFuel -> false
+
+let oracle_c10 (p : parsed) (observed : S.t) : string =
+  match p.defect with
+  | None -> "holds"
+  | Some (kind, id, x) ->
+    let resps = (match observed with S.L l -> List.filter (function S.L (S.A "printed" :: _) -> false | _ -> true) l | _ -> []) in
+    if List.length resps <> List.length p.calls then "fails:malformed-observation" else
+    let check call = function
+      | S.L [S.A "rejected"] -> "holds"
+      | S.L [S.A "resp"; _; S.L errs; S.L calls] ->
+        let err_at_node k = List.exists (function
+            | S.L [S.A "e"; _; S.L [S.A "n"; n]; S.A kk] -> S.int n = id && kk = k
+            | _ -> false) errs in
+        let err_kind k = List.exists (function S.L [S.A "e"; _; _; S.A kk] -> kk = k | _ -> false) errs in
+        let call_with_field f = List.exists (function S.L [S.A "c"; _; fn; _] -> S.int fn = f | _ -> false) calls in
+        let call_with_arg a = List.exists (function
+            | S.L [S.A "c"; _; _; S.L args] -> List.exists (function S.L [an; _] -> S.int an = a | _ -> false) args
+            | _ -> false) calls in
+        let is_reached = lazy (reached p id call) in
+        (match kind with
+         | "unknown-field" ->
+           if call_with_field x then "fails:resolver-invoked-for-undefined-field"
+           else if Lazy.force is_reached && not (err_at_node "notfield") then "fails:no-error-naming-the-undefined-field"
+           else "holds"
+         | "undeclared-arg" ->
+           if call_with_arg x then "fails:resolver-invoked-with-undeclared-argument"
+           else if Lazy.force is_reached && not (err_kind "badarg") then "fails:no-error-naming-the-undeclared-argument"
+           else "holds"
+         | "missing-required" ->
+           if Lazy.force is_reached && not (err_at_node "missingarg") then "fails:no-error-for-the-missing-required-argument"
+           else "holds"
+         | "undefined-fragment-cond" -> "fails:fragment-on-undefined-type-accepted"
+         | _ -> "fails:defective-document-not-rejected")
+      | S.L (S.A "panic" :: _) -> "fails:panic"
+      | _ -> "fails:malformed-observation" in
+    (match List.find_opt (fun v -> v <> "holds") (List.map2 check p.calls resps) with Some v -> v | None -> "holds")
+
 let oracle (prop : string) (p : parsed) (observed : S.t) : string =
+  if prop = "C10" then oracle_c10 p observed else
   let spec = run_spec p in
   if not (Model.wf_doc p.schema p.doc) then "holds:outside-claim-undeclared-or-repeated-argument" else
   let observed, printed =
